@@ -222,9 +222,27 @@ func (s *Storage) CheckRecipientExists(recipient string) (bool, error) {
 		return false, err
 	}
 
-	// In multi-domain mode, we should also check the domain
-	// For now, just check if the username exists in any domain
-	return s.CheckUserExists(username)
+	domain, err := parser.ExtractDomain(recipient)
+	if err != nil {
+		return false, err
+	}
+
+	// A role mailbox address is a valid recipient too
+	sharedDB := s.dbManager.GetSharedDB()
+	if isRole, roleErr := db.RoleMailboxExists(sharedDB, recipient); roleErr == nil && isRole {
+		return true, nil
+	}
+
+	// The user must exist in the recipient's own domain: the same local part in another domain is somebody else
+	var count int
+	err = sharedDB.QueryRow(
+		"SELECT COUNT(*) FROM users u JOIN domains d ON d.id = u.domain_id WHERE u.username = ? AND d.domain = ? AND u.enabled = ?",
+		username, domain, true,
+	).Scan(&count)
+	if err != nil {
+		return false, err
+	}
+	return count > 0, nil
 }
 
 // GetUserQuota retrieves the current quota usage for a user
